@@ -4,7 +4,13 @@
 // truncations and member-level rewrites, feeds each damaged archive to consul's reader
 // (plain tar through the verif hook, gzip-wrapped through snapshot.Read and snapshot.Verify),
 // and records (a) what the reader returned and (b) the member-level view of the same bytes
-// as Go's archive/tar presents it, plus the stdlib answers the Coq model treats as external.
+// as Go's archive/tar presents it (a NEUTRAL view: every member the tar reader yields, whatever
+// consul's reader would do with it), plus the stdlib answers the Coq model treats as external.
+//
+// Further phases (see fuzz.go, restore.go): metadata fuzzing with a reflect.DeepEqual oracle,
+// direct tests of the hypotheses the theorems make about encoding/json, bufio.Scanner and
+// fmt.Sscanf, and the real save/restore path (snapshot.New, snapshot.Restore) against an
+// in-memory raft with a recording FSM.
 package main
 
 import (
@@ -20,6 +26,7 @@ import (
 	"io"
 	"math/rand"
 	"os"
+	"reflect"
 	"strings"
 
 	"github.com/hashicorp/go-hclog"
@@ -57,36 +64,60 @@ type Expect struct {
 	Msg   string `json:"msg,omitempty"`
 }
 
+// WriteInfo explains an archive consul's writer produced in the model's terms:
+// write ord m s, with the stdlib's own encoding of m and its own rendering of the two lines.
+type WriteInfo struct {
+	Ord   bool   `json:"ord"`   // true: the meta.json line comes first
+	Meta  int    `json:"meta"`  // id of the metadata struct handed to the writer
+	Enc   string `json:"enc"`   // json.Encoder output for it (hex)
+	State string `json:"state"` // the payload: the first Size bytes of the snapshot reader (hex)
+	Sums  string `json:"sums"`  // the two "%x  %s\n" lines in the order ord (hex)
+	Forced bool  `json:"forced"` // the SHA256SUMS member was rewritten by the harness into this order
+}
+
 type Case struct {
-	ID      int        `json:"id"`
-	Base    int        `json:"base"`
-	Kind    string     `json:"kind"`
-	Gz      bool       `json:"gz"`
-	Archive string     `json:"archive,omitempty"` // hex of the damaged bytes (small ones only)
-	Hdr     bool       `json:"hdr"`
-	Members []Member   `json:"members"`
-	Term    bool       `json:"term"`
-	Trailer bool       `json:"trailer"`
-	Dec     []DecEntry `json:"dec"`
-	Sums    string     `json:"sums"`
-	Lines   []Line     `json:"lines"`
-	Expect  Expect     `json:"expect"`
-	Oracle  string     `json:"oracle"` // "" or the reason the direct oracle objects
-	ToCoq   bool       `json:"to_coq"`
-	OrigLen int        `json:"orig_state_len"`
+	Type    string                 `json:"type"` // "case"
+	ID      int                    `json:"id"`
+	Base    int                    `json:"base"` // index of the intact view this archive derives from
+	Kind    string                 `json:"kind"`
+	Gz      bool                   `json:"gz"`
+	Archive string                 `json:"archive,omitempty"` // hex of the damaged bytes (small ones only)
+	Hdr     bool                   `json:"hdr"`
+	Members []Member               `json:"members"`
+	Term    bool                   `json:"term"`
+	Trailer bool                   `json:"trailer"`
+	Dec     []DecEntry             `json:"dec"`
+	Sums    string                 `json:"sums"`
+	Lines   []Line                 `json:"lines"`
+	Scan    bool                   `json:"scan"` // bufio.Scanner ended with an error
+	Write   *WriteInfo             `json:"write,omitempty"`
+	Expect  Expect                 `json:"expect"`
+	Oracle  string                 `json:"oracle"` // "" or the reason the direct oracle objects
+	Sig     map[string]interface{} `json:"sig,omitempty"`
+	Replay  interface{}            `json:"replay,omitempty"`
+	Class   string                 `json:"class,omitempty"` // for accepted damaged archives: how the view differs
+	ToCoq   bool                   `json:"to_coq"`
+	OrigLen int                    `json:"orig_state_len"`
+}
+
+// BaseView is the member view of an intact archive; damaged views are compared with it in Coq.
+type BaseView struct {
+	Type    string   `json:"type"` // "base"
+	ID      int      `json:"id"`
+	Members []Member `json:"members"`
 }
 
 type base struct {
 	meta  raft.SnapshotMeta
-	state []byte
+	state []byte // the payload (first Size bytes of what the reader offered)
 	tarb  []byte
 	gzb   []byte
-	metaJ string // canonical JSON of the metadata
 }
 
-func canonMeta(m *raft.SnapshotMeta) string {
-	b, _ := json.Marshal(m)
-	return string(b)
+// metaKey identifies a metadata value exactly (Go syntax: distinguishes nil from empty slices and
+// keeps the raw bytes of strings), unlike its JSON rendering.
+func metaKey(m *raft.SnapshotMeta) string {
+	return fmt.Sprintf("%#v", *m)
 }
 
 func mkBase(meta raft.SnapshotMeta, state []byte) (*base, error) {
@@ -103,44 +134,63 @@ func mkBase(meta raft.SnapshotMeta, state []byte) (*base, error) {
 	if err := zw.Close(); err != nil {
 		return nil, err
 	}
-	return &base{meta: meta, state: state, tarb: tb.Bytes(), gzb: gb.Bytes(), metaJ: canonMeta(&meta)}, nil
+	return &base{meta: meta, state: state, tarb: tb.Bytes(), gzb: gb.Bytes()}, nil
 }
 
-// errCode maps the reader's error text to the model's enum.
-func errCode(err error) int {
+const integrityPrefix = "failed checking integrity of snapshot: "
+
+// viewInfo: the stdlib's own error texts for the archive, used to classify consul's error exactly.
+type viewInfo struct {
+	sscanfErr  string // first Sscanf error over the scanned lines
+	scanErr    string // bufio.Scanner error
+	trailerErr string // what concludeGzipRead will report
+}
+
+// errCode maps the reader's error text to the model's enum; 99 = unrecognised (matches no
+// outcome of the model, so it surfaces as a correspondence failure rather than being absorbed
+// by a default).
+func errCode(err error, v *viewInfo) int {
 	s := err.Error()
 	switch {
-	case strings.Contains(s, "failed to decompress snapshot"):
+	case strings.HasPrefix(s, "failed to decompress snapshot: "):
 		return 1
-	case strings.Contains(s, "failed reading snapshot"):
+	case strings.Contains(s, "failed reading snapshot: "):
 		return 2
-	case strings.Contains(s, "failed to read snapshot metadata"):
+	case strings.Contains(s, "failed to read snapshot metadata: "):
 		return 3
-	case strings.Contains(s, "failed to decode snapshot metadata"):
+	case strings.Contains(s, "failed to decode snapshot metadata: "):
 		return 4
-	case strings.Contains(s, "failed to read or write snapshot data"):
+	case strings.Contains(s, "failed to read or write snapshot data: "):
 		return 5
-	case strings.Contains(s, "failed to read snapshot hashes"):
+	case strings.Contains(s, "failed to read snapshot hashes: "):
 		return 6
-	case strings.Contains(s, "unexpected file"):
+	case strings.Contains(s, "unexpected file "):
 		return 7
-	case strings.Contains(s, "list missing hash for"):
+	case strings.Contains(s, integrityPrefix+"list missing hash for "):
 		return 9
-	case strings.Contains(s, "hash check failed for"):
+	case strings.Contains(s, integrityPrefix+"hash check failed for "):
 		return 10
-	case strings.Contains(s, "file missing for"):
+	case strings.Contains(s, integrityPrefix+"file missing for "):
 		return 11
-	case strings.Contains(s, "is not in the archive"):
+	case strings.HasSuffix(s, " is not in the archive") && strings.Contains(s, integrityPrefix+"file "):
 		return 13
-	case strings.Contains(s, "failed checking integrity of snapshot"):
-		return 8 // scanner / Sscanf error
+	case v.scanErr != "" && strings.HasSuffix(s, integrityPrefix+v.scanErr):
+		return 14
+	case v.sscanfErr != "" && strings.HasSuffix(s, integrityPrefix+v.sscanfErr):
+		return 8
+	case v.trailerErr != "" && s == v.trailerErr:
+		return 12
 	default:
-		return 12 // concludeGzipRead: raw gzip error or trailing bytes
+		return 99
 	}
 }
 
 type metaIDs struct {
 	ids map[string]int
+}
+
+func newMetaIDs() *metaIDs {
+	return &metaIDs{ids: map[string]int{metaKey(&raft.SnapshotMeta{}): 0}}
 }
 
 func (m *metaIDs) id(s string) int {
@@ -153,29 +203,27 @@ func (m *metaIDs) id(s string) int {
 }
 
 // view builds the member-level view of a (possibly damaged) archive with the stdlib only.
-func view(data []byte, gz bool, c *Case, known map[string][]byte, mids *metaIDs) {
+// It is neutral: it lists every member archive/tar yields until Next fails or reports EOF.
+func view(data []byte, gz bool, c *Case, known map[string][]byte, mids *metaIDs) *viewInfo {
+	vi := &viewInfo{}
 	var in io.Reader = bytes.NewReader(data)
 	c.Hdr, c.Trailer = true, true
+	c.Members, c.Dec, c.Lines = []Member{}, []DecEntry{}, []Line{}
 	var zr *gzip.Reader
 	if gz {
 		var err error
 		zr, err = gzip.NewReader(in)
 		if err != nil {
 			c.Hdr = false
-			c.Members = []Member{}
-			c.Dec = []DecEntry{}
-			c.Lines = []Line{}
-			return
+			return vi
 		}
 		in = zr
 	}
 	tr := tar.NewReader(in)
 	c.Term = true
-	c.Members = []Member{}
 	var accMeta, accState, accSums []byte
 	cur := raft.SnapshotMeta{}
-	c.Dec = []DecEntry{}
-	stopped := false
+	decStopped := false
 	for {
 		hdr, err := tr.Next()
 		if err == io.EOF {
@@ -191,21 +239,23 @@ func view(data []byte, gz bool, c *Case, known map[string][]byte, mids *metaIDs)
 		switch hdr.Name {
 		case "meta.json":
 			accMeta = append(accMeta, b...)
-			if rerr == nil {
-				curID := mids.id(canonMeta(&cur))
+			if rerr == nil && !decStopped {
+				curID := mids.id(metaKey(&cur))
 				next := cur
 				p := &next
 				uerr := json.Unmarshal(b, &p)
 				e := DecEntry{Cur: curID, Data: m.Data, Ok: uerr == nil}
 				if uerr == nil {
 					if p == nil {
-						// JSON null: consul's local pointer becomes nil; not generated.
+						// JSON null: consul's local pointer becomes nil and the caller's struct
+						// keeps its value; a later meta.json decodes into a struct nobody sees.
+						// Under single faults the hash check refuses such an archive anyway.
 						p = &next
 					}
 					cur = *p
-					e.New = mids.id(canonMeta(&cur))
+					e.New = mids.id(metaKey(&cur))
 				} else {
-					stopped = true
+					decStopped = true // consul returns here: the decoder state is unobservable from now on
 				}
 				c.Dec = append(c.Dec, e)
 			}
@@ -213,31 +263,30 @@ func view(data []byte, gz bool, c *Case, known map[string][]byte, mids *metaIDs)
 			accState = append(accState, b...)
 		case "SHA256SUMS":
 			accSums = append(accSums, b...)
-		default:
-			stopped = true
-		}
-		if rerr != nil || stopped {
-			// consul's reader returns here; nothing after this point is observable.
-			c.Term = true
-			break
 		}
 	}
-	if gz && c.Term && !stopped {
-		// What concludeGzipRead will find once the tar reader has stopped.
+	if gz && c.Term {
+		// What concludeGzipRead finds once the tar reader has seen the end of the archive.
 		extra, err := io.ReadAll(zr)
-		if err != nil || len(extra) != 0 {
+		if err != nil {
 			c.Trailer = false
+			vi.trailerErr = err.Error()
+		} else if len(extra) != 0 {
+			c.Trailer = false
+			vi.trailerErr = fmt.Sprintf("%d unread uncompressed bytes remain", len(extra))
 		}
 	}
 	c.Sums = hex.EncodeToString(accSums)
 	known[hex.EncodeToString(sum(accMeta))] = accMeta
 	known[hex.EncodeToString(sum(accState))] = accState
-	c.Lines = []Line{}
 	s := bufio.NewScanner(bytes.NewReader(accSums))
 	for s.Scan() {
 		sha := make([]byte, sha256.Size)
 		var file string
 		if _, err := fmt.Sscanf(s.Text(), "%x  %s", &sha, &file); err != nil {
+			if vi.sscanfErr == "" {
+				vi.sscanfErr = err.Error()
+			}
 			c.Lines = append(c.Lines, Line{Ok: false})
 			continue
 		}
@@ -248,6 +297,11 @@ func view(data []byte, gz bool, c *Case, known map[string][]byte, mids *metaIDs)
 		}
 		c.Lines = append(c.Lines, l)
 	}
+	if err := s.Err(); err != nil {
+		c.Scan = true
+		vi.scanErr = err.Error()
+	}
+	return vi
 }
 
 func sum(b []byte) []byte {
@@ -255,30 +309,43 @@ func sum(b []byte) []byte {
 	return h[:]
 }
 
+type implResult struct {
+	exp    Expect
+	md     *raft.SnapshotMeta
+	state  []byte
+	incons string
+}
+
 // runImpl feeds the archive to consul's reader.
-func runImpl(data []byte, gz bool, mids *metaIDs) (Expect, string) {
+func runImpl(data []byte, gz bool, mids *metaIDs, vi *viewInfo) implResult {
 	if !gz {
 		var md raft.SnapshotMeta
 		var out bytes.Buffer
 		err := snapshot.VerifRead(bytes.NewReader(data), &md, &out)
 		if err != nil {
-			return Expect{Ok: false, Err: errCode(err), Msg: err.Error()}, ""
+			return implResult{exp: Expect{Ok: false, Err: errCode(err, vi), Msg: err.Error()}}
 		}
-		return Expect{Ok: true, Meta: mids.id(canonMeta(&md)), State: hex.EncodeToString(out.Bytes())}, ""
+		return implResult{exp: Expect{Ok: true, Meta: mids.id(metaKey(&md)), State: hex.EncodeToString(out.Bytes())},
+			md: &md, state: out.Bytes()}
 	}
 	logger := hclog.NewNullLogger()
 	f, md, err := snapshot.Read(logger, bytes.NewReader(data))
-	_, verr := snapshot.Verify(bytes.NewReader(data))
+	vmd, verr := snapshot.Verify(bytes.NewReader(data))
 	incons := ""
 	if (err == nil) != (verr == nil) {
 		incons = fmt.Sprintf("snapshot.Read and snapshot.Verify disagree: read=%v verify=%v", err, verr)
+	} else if err != nil && errCode(err, vi) != errCode(verr, vi) {
+		incons = fmt.Sprintf("snapshot.Read and snapshot.Verify fail differently: read=%v verify=%v", err, verr)
+	} else if err == nil && metaKey(md) != metaKey(vmd) {
+		incons = fmt.Sprintf("snapshot.Read and snapshot.Verify return different metadata: %#v vs %#v", *md, *vmd)
 	}
 	if err != nil {
-		return Expect{Ok: false, Err: errCode(err), Msg: err.Error()}, incons
+		return implResult{exp: Expect{Ok: false, Err: errCode(err, vi), Msg: err.Error()}, incons: incons}
 	}
 	defer func() { f.Close(); os.Remove(f.Name()) }()
 	st, _ := io.ReadAll(f)
-	return Expect{Ok: true, Meta: mids.id(canonMeta(md)), State: hex.EncodeToString(st)}, incons
+	return implResult{exp: Expect{Ok: true, Meta: mids.id(metaKey(md)), State: hex.EncodeToString(st)},
+		md: md, state: st, incons: incons}
 }
 
 type tmember struct {
@@ -344,17 +411,247 @@ type mutation struct {
 	data []byte
 }
 
+func membersOf(data []byte, gz bool) []Member {
+	var c Case
+	view(data, gz, &c, map[string][]byte{}, newMetaIDs())
+	return c.Members
+}
+
+func sameMembers(a, b []Member) bool {
+	if len(a) != len(b) {
+		return false
+	}
+	for i := range a {
+		if a[i] != b[i] {
+			return false
+		}
+	}
+	return true
+}
+
+// writeInfo explains the archive (written by consul's writer for meta/payload) in the model's
+// terms, using only the stdlib: which line order the SHA256SUMS member has, the encoder's output,
+// and the rendering of the two lines in that order. ok=false when the archive's sums member is
+// neither of the two orders (then there is no explanation and the Coq check will fail).
+func writeInfo(meta *raft.SnapshotMeta, payload []byte, ms []Member, mids *metaIDs) *WriteInfo {
+	var eb bytes.Buffer
+	json.NewEncoder(&eb).Encode(meta)
+	lm := fmt.Sprintf("%x  %s\n", sum(eb.Bytes()), "meta.json")
+	ls := fmt.Sprintf("%x  %s\n", sum(payload), "state.bin")
+	w := &WriteInfo{Meta: mids.id(metaKey(meta)), Enc: hex.EncodeToString(eb.Bytes()), State: hex.EncodeToString(payload)}
+	got := ""
+	for _, m := range ms {
+		if m.Name == "SHA256SUMS" {
+			got = m.Data
+		}
+	}
+	if got == hex.EncodeToString([]byte(ls+lm)) {
+		w.Ord = false
+		w.Sums = hex.EncodeToString([]byte(ls + lm))
+	} else {
+		w.Ord = true
+		w.Sums = hex.EncodeToString([]byte(lm + ls))
+	}
+	return w
+}
+
+type emitter struct {
+	w       *bufio.Writer
+	id      int
+	nbase   int
+	seenCoq map[string]bool
+	stats   map[string]int
+}
+
+func (e *emitter) line(v interface{}) {
+	j, err := json.Marshal(v)
+	if err != nil {
+		panic(err)
+	}
+	e.w.Write(j)
+	e.w.WriteByte('\n')
+}
+
+// newBase registers the member view of an intact archive and returns its index.
+func (e *emitter) newBase(ms []Member) int {
+	id := e.nbase
+	e.nbase++
+	e.line(&BaseView{Type: "base", ID: id, Members: ms})
+	return id
+}
+
+// classify says how the view of an ACCEPTED damaged archive differs from the intact one.
+func classify(baseMs, ms []Member) string {
+	if sameMembers(baseMs, ms) {
+		return "view-identical" // the damage is confined to bytes archive/tar + gzip ignore (padding, unused header bits)
+	}
+	cnt := map[string]int{}
+	for _, m := range ms {
+		cnt[m.Name]++
+	}
+	if len(ms) > len(baseMs) {
+		return "extra-member-with-expected-name"
+	}
+	if len(ms) == len(baseMs) {
+		same := 0
+		for i := range ms {
+			if ms[i] == baseMs[i] {
+				same++
+			}
+		}
+		if same == len(ms)-1 {
+			for i := range ms {
+				if ms[i] != baseMs[i] {
+					return "member-data-altered:" + ms[i].Name
+				}
+			}
+		}
+		return "reordered"
+	}
+	return "other"
+}
+
+type origin struct {
+	bi      int // base view index
+	meta    *raft.SnapshotMeta
+	state   []byte
+	baseMs  []Member
+	write   *WriteInfo // only for intact archives
+	fuzz    interface{}
+	isFuzz  bool
+}
+
+func (e *emitter) emit(o *origin, mu mutation, toCoq bool) *Case {
+	mids := newMetaIDs()
+	c := Case{Type: "case", ID: e.id, Base: o.bi, Kind: mu.kind, Gz: mu.gz, OrigLen: len(o.state)}
+	e.id++
+	known := map[string][]byte{}
+	known[hex.EncodeToString(sum(o.state))] = o.state
+	var eb bytes.Buffer
+	json.NewEncoder(&eb).Encode(o.meta)
+	known[hex.EncodeToString(sum(eb.Bytes()))] = eb.Bytes()
+	origID := mids.id(metaKey(o.meta))
+	vi := view(mu.data, mu.gz, &c, known, mids)
+	r := runImpl(mu.data, mu.gz, mids, vi)
+	c.Expect = r.exp
+	intact := strings.HasPrefix(mu.kind, "identity")
+	if intact {
+		c.Write = o.write
+		if c.Write != nil {
+			w := *c.Write
+			w.Meta = origID
+			c.Write = &w
+		}
+	}
+	// ---- direct oracle: stated on the implementation's behaviour only ----
+	if r.incons != "" {
+		c.Oracle = r.incons
+	} else if r.exp.Ok {
+		if !bytes.Equal(r.state, o.state) {
+			c.Oracle = "accepted-with-altered-state"
+		} else if metaKey(r.md) != metaKey(o.meta) {
+			c.Oracle = "accepted-with-altered-metadata"
+			if o.isFuzz {
+				// an intact archive written for generated metadata: narrow structured signature.
+				// cause: does the original hold a string that is not valid UTF-8?  read_back: is the value
+				// read back exactly the original with every invalid byte replaced by U+FFFD and nothing else?
+				c.Oracle = "roundtrip-metadata-differs"
+				cause, rb := "other", "other"
+				if !validMeta(o.meta) {
+					cause = "invalid-utf8"
+				}
+				if reflect.DeepEqual(*r.md, coerceMeta(*o.meta)) {
+					rb = "invalid-bytes-replaced-by-U+FFFD"
+				}
+				c.Sig = map[string]interface{}{"kind": "roundtrip-metadata-differs", "cause": cause, "read_back": rb}
+				c.Replay = o.fuzz
+			}
+		} else {
+			have := map[string]bool{}
+			for _, m := range c.Members {
+				have[m.Name] = true
+			}
+			for _, n := range []string{"meta.json", "state.bin", "SHA256SUMS"} {
+				if !have[n] {
+					c.Oracle = "accepted-without-member:" + n
+				}
+			}
+			for n := range have {
+				if n != "meta.json" && n != "state.bin" && n != "SHA256SUMS" {
+					c.Oracle = "accepted-with-unexpected-member"
+				}
+			}
+		}
+		if !intact {
+			c.Class = classify(o.baseMs, c.Members)
+		}
+	} else if intact {
+		c.Oracle = "intact-archive-rejected: " + r.exp.Msg
+	}
+	if r.exp.Err == 99 {
+		c.Oracle = "unrecognised-error: " + r.exp.Msg
+	}
+	c.Expect.Msg = ""
+	if toCoq || c.Oracle != "" {
+		if len(mu.data) <= 1<<16 {
+			c.Archive = hex.EncodeToString(mu.data)
+		}
+	}
+	if toCoq {
+		// de-duplicate by what the model sees
+		c.ToCoq = true
+		key, _ := json.Marshal(struct {
+			B int
+			G bool
+			H bool
+			M []Member
+			T bool
+			R bool
+			D []DecEntry
+			S string
+			L []Line
+			C bool
+			W *WriteInfo
+			E Expect
+		}{c.Base, c.Gz, c.Hdr, c.Members, c.Term, c.Trailer, c.Dec, c.Sums, c.Lines, c.Scan, c.Write, c.Expect})
+		k := string(sum(key))
+		if e.seenCoq[k] {
+			c.ToCoq = false
+			if c.Oracle == "" {
+				c.Archive = ""
+			}
+		} else {
+			e.seenCoq[k] = true
+		}
+	}
+	if !c.ToCoq && c.Oracle == "" {
+		// keep the line short: the view is only needed for Coq and for failures
+		c.Members, c.Dec, c.Lines, c.Sums = nil, nil, nil, ""
+	}
+	e.line(&c)
+	return &c
+}
+
 func main() {
 	seed := flag.Int64("seed", 1, "seed")
 	tier := flag.String("tier", "quick", "quick|thorough")
 	out := flag.String("out", "", "output jsonl")
-	replay := flag.String("replay", "", "replay file (json with archive hex, gz)")
+	replay := flag.String("replay", "", "replay file (json with archive hex + gz, or a metadata round-trip case)")
 	flag.Parse()
 
 	if *replay != "" {
 		doReplay(*replay)
 		return
 	}
+
+	// snapshot.Read leaves its temporary file behind whenever it refuses an archive (snapshot.go
+	// returns without removing it): keep them in a private directory, count them, remove them.
+	tmpd, err := os.MkdirTemp("", "c20-harness")
+	if err != nil {
+		panic(err)
+	}
+	os.Setenv("TMPDIR", tmpd)
+	defer os.RemoveAll(tmpd)
 
 	rng := rand.New(rand.NewSource(*seed))
 	w := bufio.NewWriterSize(os.Stdout, 1<<20)
@@ -367,11 +664,13 @@ func main() {
 		w = bufio.NewWriterSize(f, 1<<20)
 	}
 	defer w.Flush()
+	e := &emitter{w: w, seenCoq: map[string]bool{}, stats: map[string]int{}}
+	thorough := *tier == "thorough"
 
 	// ---- base archives ----
 	sizes := []int{0, 1, 5, 37}
 	bigSizes := []int{511, 512, 513, 4096}
-	if *tier == "thorough" {
+	if thorough {
 		sizes = append(sizes, 2, 16, 64)
 		bigSizes = append(bigSizes, 1024, 1536, 65536)
 	}
@@ -394,202 +693,298 @@ func main() {
 		}
 		bases = append(bases, b)
 	}
-
-	id := 0
-	seenCoq := map[string]bool{}
-	emit := func(bi int, b *base, mu mutation, toCoq bool) {
-		mids := &metaIDs{ids: map[string]int{canonMeta(&raft.SnapshotMeta{}): 0}}
-		c := Case{ID: id, Base: bi, Kind: mu.kind, Gz: mu.gz, OrigLen: len(b.state)}
-		id++
-		known := map[string][]byte{}
-		known[hex.EncodeToString(sum(b.state))] = b.state
-		origMetaJSON := append([]byte(b.metaJ), '\n')
-		known[hex.EncodeToString(sum(origMetaJSON))] = origMetaJSON
-		view(mu.data, mu.gz, &c, known, mids)
-		exp, incons := runImpl(mu.data, mu.gz, mids)
-		c.Expect = exp
-		// ---- direct oracle: stated on the implementation's behaviour only ----
-		if incons != "" {
-			c.Oracle = incons
-		} else if exp.Ok {
-			origID := mids.id(b.metaJ)
-			if exp.State != hex.EncodeToString(b.state) {
-				c.Oracle = "accepted-with-altered-state"
-			} else if exp.Meta != origID {
-				c.Oracle = "accepted-with-altered-metadata"
-			} else {
-				have := map[string]bool{}
-				for _, m := range c.Members {
-					have[m.Name] = true
-				}
-				for _, n := range []string{"meta.json", "state.bin", "SHA256SUMS"} {
-					if !have[n] {
-						c.Oracle = "accepted-without-member:" + n
-					}
-				}
-				for n := range have {
-					if n != "meta.json" && n != "state.bin" && n != "SHA256SUMS" {
-						c.Oracle = "accepted-with-unexpected-member"
-					}
-				}
-			}
-		} else if mu.kind == "identity" {
-			c.Oracle = "intact-archive-rejected: " + exp.Msg
+	// states that themselves look like archive structure: zero blocks, and a whole tar archive
+	{
+		b1, err := mkBase(metas[0], make([]byte, 1024))
+		if err != nil {
+			panic(err)
 		}
-		c.Expect.Msg = ""
-		if toCoq || c.Oracle != "" {
-			c.Archive = hex.EncodeToString(mu.data)
+		b2, err := mkBase(metas[1], append([]byte{}, bases[1].tarb...))
+		if err != nil {
+			panic(err)
 		}
-		if toCoq {
-			// de-duplicate by what the model sees
-			c.ToCoq = true
-			key, _ := json.Marshal(struct {
-				H bool
-				M []Member
-				T bool
-				R bool
-				D []DecEntry
-				S string
-				L []Line
-				E Expect
-			}{c.Hdr, c.Members, c.Term, c.Trailer, c.Dec, c.Sums, c.Lines, c.Expect})
-			k := string(key)
-			if seenCoq[k] {
-				c.ToCoq = false
-				if c.Oracle == "" {
-					c.Archive = ""
-				}
-			} else {
-				seenCoq[k] = true
-			}
-		}
-		if !c.ToCoq {
-			// keep the line short: the view is only needed for Coq and for failures
-			if c.Oracle == "" {
-				c.Members, c.Dec, c.Lines, c.Sums = nil, nil, nil, ""
-			}
-		}
-		j, _ := json.Marshal(&c)
-		w.Write(j)
-		w.WriteByte('\n')
+		bases = append(bases, b1, b2)
 	}
 
-	flips := []byte{0x01, 0x80, 0xFF}
+	masks := []byte{0x01, 0x02, 0x04, 0x08, 0x10, 0x20, 0x40, 0x80}
+	bigMasks := []byte{0x01, 0x20, 0x80, 0xFF}
+	if thorough {
+		masks = masks[:0]
+		for m := 1; m < 256; m++ {
+			masks = append(masks, byte(m))
+		}
+		bigMasks = []byte{0x01, 0x02, 0x04, 0x08, 0x10, 0x20, 0x40, 0x80, 0xFF}
+	}
+	orders := map[string]int{}
+	var restoreSet []restoreItem
+
 	for bi, b := range bases {
 		isSmall := small[bi]
-		emit(bi, b, mutation{"identity", false, b.tarb}, true)
-		emit(bi, b, mutation{"identity", true, b.gzb}, true)
-
-		// --- byte flips ---
-		stride := 1
-		if !isSmall && *tier == "quick" {
-			stride = 7
-		}
-		off := 0
-		if stride > 1 {
-			off = rng.Intn(stride)
-		}
-		for pos := off; pos < len(b.tarb); pos += stride {
-			for _, fl := range flips {
-				d := append([]byte{}, b.tarb...)
-				d[pos] ^= fl
-				emit(bi, b, mutation{fmt.Sprintf("flip@%d^%02x", pos, fl), false, d}, isSmall)
+		for _, gz := range []bool{false, true} {
+			data := b.tarb
+			if gz {
+				data = b.gzb
 			}
-		}
-		for pos := 0; pos < len(b.gzb); pos++ {
-			if !isSmall && *tier == "quick" && pos%5 != off%5 {
+			baseMs := membersOf(data, gz)
+			wi := writeInfo(&b.meta, b.state, baseMs, newMetaIDs())
+			orders[fmt.Sprintf("written-by-consul/ord=%v", wi.Ord)]++
+			o := &origin{bi: e.newBase(baseMs), meta: &b.meta, state: b.state, baseMs: baseMs, write: wi}
+			sfx := ""
+			if gz {
+				sfx = "+gz"
+			}
+			e.emit(o, mutation{"identity" + sfx, gz, data}, true)
+
+			// the same archive with the two SHA256SUMS lines in the OTHER order (the order is a Go map
+			// iteration order): the reader must accept it, and the model's write with the other ord
+			// must equal its view
+			{
+				ms := tarMembers(b.tarb)
+				var eb bytes.Buffer
+				json.NewEncoder(&eb).Encode(&b.meta)
+				lm := fmt.Sprintf("%x  %s\n", sum(eb.Bytes()), "meta.json")
+				ls := fmt.Sprintf("%x  %s\n", sum(b.state), "state.bin")
+				other := lm + ls
+				if wi.Ord {
+					other = ls + lm
+				}
+				for i := range ms {
+					if ms[i].name == "SHA256SUMS" {
+						ms[i].data = []byte(other)
+					}
+				}
+				od := buildTar(ms)
+				if gz {
+					od = gzipBytes(od)
+				}
+				oms := membersOf(od, gz)
+				owi := writeInfo(&b.meta, b.state, oms, newMetaIDs())
+				owi.Forced = true
+				orders[fmt.Sprintf("rewritten-into-other-order/ord=%v", owi.Ord)]++
+				oo := &origin{bi: e.newBase(oms), meta: &b.meta, state: b.state, baseMs: oms, write: owi}
+				e.emit(oo, mutation{"identity-other-order" + sfx, gz, od}, true)
+			}
+
+			if !gz {
+				// --- byte flips, plain ---
+				stride := 1
+				ms := masks
+				if !isSmall {
+					ms = bigMasks
+					if !thorough {
+						stride = 7
+					}
+				}
+				off := 0
+				if stride > 1 {
+					off = rng.Intn(stride)
+				}
+				for pos := off; pos < len(data); pos += stride {
+					for _, fl := range ms {
+						d := append([]byte{}, data...)
+						d[pos] ^= fl
+						e.emit(o, mutation{fmt.Sprintf("flip@%d^%02x", pos, fl), false, d}, isSmall)
+					}
+				}
+			} else {
+				ms := masks
+				if !isSmall {
+					ms = bigMasks
+				}
+				off := rng.Intn(5)
+				for pos := 0; pos < len(data); pos++ {
+					if !isSmall && !thorough && pos%5 != off {
+						continue
+					}
+					for _, fl := range ms {
+						d := append([]byte{}, data...)
+						d[pos] ^= fl
+						e.emit(o, mutation{fmt.Sprintf("gzflip@%d^%02x", pos, fl), true, d}, isSmall)
+						if isSmall && fl == 0x01 {
+							restoreSet = append(restoreSet, restoreItem{kind: "gzflip", data: d, state: b.state})
+						}
+					}
+				}
+			}
+			// --- truncations ---
+			tstride := 1
+			if !isSmall && !thorough {
+				tstride = 3
+			}
+			for n := 0; n < len(data); n += tstride {
+				k := "trunc"
+				if gz {
+					k = "gztrunc"
+				}
+				e.emit(o, mutation{fmt.Sprintf("%s@%d", k, n), gz, data[:n]}, isSmall)
+				if gz && isSmall {
+					restoreSet = append(restoreSet, restoreItem{kind: "gztrunc", data: data[:n], state: b.state})
+				}
+			}
+			if gz {
+				restoreSet = append(restoreSet, restoreItem{kind: "identity", data: data, state: b.state})
 				continue
 			}
-			for _, fl := range flips {
-				d := append([]byte{}, b.gzb...)
-				d[pos] ^= fl
-				emit(bi, b, mutation{fmt.Sprintf("gzflip@%d^%02x", pos, fl), true, d}, isSmall)
+			// from here on: rewrites of the plain archive, fed plain and gzip-wrapped; their intact
+			// view is the plain one
+			both := func(kind string, t []byte) {
+				e.emit(o, mutation{kind, false, t}, isSmall)
+				g := gzipBytes(t)
+				e.emit(o, mutation{kind + "+gz", true, g}, isSmall)
+				if isSmall {
+					restoreSet = append(restoreSet, restoreItem{kind: strings.SplitN(kind, ":", 2)[0], data: g, state: b.state})
+				}
 			}
-		}
-		// --- truncations ---
-		tstride := 1
-		if !isSmall && *tier == "quick" {
-			tstride = 3
-		}
-		for n := 0; n < len(b.tarb); n += tstride {
-			emit(bi, b, mutation{fmt.Sprintf("trunc@%d", n), false, b.tarb[:n]}, isSmall)
-		}
-		for n := 0; n < len(b.gzb); n += tstride {
-			emit(bi, b, mutation{fmt.Sprintf("gztrunc@%d", n), true, b.gzb[:n]}, isSmall)
-		}
-		// truncating the *uncompressed* stream and re-compressing (a cut before compression)
-		for n := 0; n < len(b.tarb); n += 512 {
-			emit(bi, b, mutation{fmt.Sprintf("trunc-then-gz@%d", n), true, gzipBytes(b.tarb[:n])}, isSmall)
-		}
-		// trailing garbage after the archive inside the gzip stream
-		emit(bi, b, mutation{"gz-trailing-garbage", true, gzipBytes(append(append([]byte{}, b.tarb...), 1, 2, 3))}, isSmall)
-		emit(bi, b, mutation{"gz-trailing-zero-block", true, gzipBytes(append(append([]byte{}, b.tarb...), make([]byte, 512)...))}, isSmall)
+			// truncating the *uncompressed* stream and re-compressing (a cut before compression)
+			for n := 0; n < len(b.tarb); n += 512 {
+				e.emit(o, mutation{fmt.Sprintf("trunc-then-gz@%d", n), true, gzipBytes(b.tarb[:n])}, isSmall)
+			}
+			// trailing garbage after the archive inside the gzip stream; a second gzip member appended
+			e.emit(o, mutation{"gz-trailing-garbage", true, gzipBytes(append(append([]byte{}, b.tarb...), 1, 2, 3))}, isSmall)
+			e.emit(o, mutation{"gz-trailing-zero-block", true, gzipBytes(append(append([]byte{}, b.tarb...), make([]byte, 512)...))}, isSmall)
+			e.emit(o, mutation{"gz-multistream-empty", true, append(gzipBytes(b.tarb), gzipBytes(nil)...)}, isSmall)
+			e.emit(o, mutation{"gz-multistream-garbage", true, append(gzipBytes(b.tarb), gzipBytes([]byte("tail"))...)}, isSmall)
 
-		// --- member-level rewrites ---
-		ms := tarMembers(b.tarb)
-		both := func(kind string, l []tmember) {
-			t := buildTar(l)
-			emit(bi, b, mutation{kind, false, t}, isSmall)
-			emit(bi, b, mutation{kind + "+gz", true, gzipBytes(t)}, isSmall)
-		}
-		for i := range ms {
-			rm := append(append([]tmember{}, ms[:i]...), ms[i+1:]...)
-			both("remove:"+ms[i].name, rm)
-			for j := 0; j <= len(ms); j++ {
-				dup := append(append(append([]tmember{}, ms[:j]...), ms[i]), ms[j:]...)
-				both(fmt.Sprintf("dup:%s@%d", ms[i].name, j), dup)
-			}
-			for _, nn := range []string{"meta.json", "state.bin", "SHA256SUMS", "evil.bin", ""} {
-				if nn == ms[i].name {
-					continue
+			// --- member-level rewrites ---
+			tms := tarMembers(b.tarb)
+			for i := range tms {
+				rm := append(append([]tmember{}, tms[:i]...), tms[i+1:]...)
+				both("remove:"+tms[i].name, buildTar(rm))
+				for j := 0; j <= len(tms); j++ {
+					dup := append(append(append([]tmember{}, tms[:j]...), tms[i]), tms[j:]...)
+					both(fmt.Sprintf("dup:%s@%d", tms[i].name, j), buildTar(dup))
 				}
-				rn := append([]tmember{}, ms...)
-				rn[i] = tmember{name: nn, data: ms[i].data}
-				both(fmt.Sprintf("rename:%s->%q", ms[i].name, nn), rn)
-			}
-			// content replaced wholesale (same length and different length)
-			alt := append([]byte{}, ms[i].data...)
-			if len(alt) > 0 {
-				alt[rng.Intn(len(alt))] ^= 0x20
-			}
-			alt2 := append(append([]byte{}, ms[i].data...), 'x')
-			for k, a := range [][]byte{alt, alt2, {}} {
-				if bytes.Equal(a, ms[i].data) {
-					continue
+				for _, nn := range []string{"meta.json", "state.bin", "SHA256SUMS", "evil.bin", ""} {
+					if nn == tms[i].name {
+						continue
+					}
+					rn := append([]tmember{}, tms...)
+					rn[i] = tmember{name: nn, data: tms[i].data}
+					both(fmt.Sprintf("rename:%s->%q", tms[i].name, nn), buildTar(rn))
 				}
-				rp := append([]tmember{}, ms...)
-				rp[i] = tmember{name: ms[i].name, data: a}
-				both(fmt.Sprintf("replace:%s#%d", ms[i].name, k), rp)
+				// content replaced wholesale (same length and different length)
+				alt := append([]byte{}, tms[i].data...)
+				if len(alt) > 0 {
+					alt[rng.Intn(len(alt))] ^= 0x20
+				}
+				alt2 := append(append([]byte{}, tms[i].data...), 'x')
+				for k, a := range [][]byte{alt, alt2, {}} {
+					if bytes.Equal(a, tms[i].data) {
+						continue
+					}
+					rp := append([]tmember{}, tms...)
+					rp[i] = tmember{name: tms[i].name, data: a}
+					both(fmt.Sprintf("replace:%s#%d", tms[i].name, k), buildTar(rp))
+				}
+			}
+			perms := [][]int{{0, 2, 1}, {1, 0, 2}, {1, 2, 0}, {2, 0, 1}, {2, 1, 0}}
+			if len(tms) == 3 {
+				for _, p := range perms {
+					both(fmt.Sprintf("reorder:%v", p), buildTar([]tmember{tms[p[0]], tms[p[1]], tms[p[2]]}))
+				}
+				// SHA256SUMS rewritten: upper-case hex, a third (blank / comment / duplicate) line,
+				// CRLF line ends, and a line longer than bufio.Scanner's 64 KiB token limit
+				// (s.Err() = bufio.ErrTooLong) after, before and between the two good lines
+				sumsTxt := string(tms[2].data)
+				lines := strings.Split(strings.TrimSuffix(sumsTxt, "\n"), "\n")
+				long := strings.Repeat("x", 70000)
+				variants := map[string]string{
+					"upper":        strings.ToUpper(sumsTxt[:64]) + sumsTxt[64:],
+					"dup-line":     sumsTxt + lines[0] + "\n",
+					"blank-line":   sumsTxt + "\n",
+					"crlf":         strings.ReplaceAll(sumsTxt, "\n", "\r\n"),
+					"no-final-nl":  strings.TrimSuffix(sumsTxt, "\n"),
+					"long-after":   sumsTxt + long,
+					"long-before":  long + "\n" + sumsTxt,
+					"long-between": lines[0] + "\n" + long + "\n" + lines[len(lines)-1] + "\n",
+					"long-nl-after": sumsTxt + long + "\n",
+					"bad-then-long": "garbage line\n" + sumsTxt + long,
+				}
+				for _, name := range []string{"upper", "dup-line", "blank-line", "crlf", "no-final-nl", "long-after", "long-before", "long-between", "long-nl-after", "bad-then-long"} {
+					rp := append([]tmember{}, tms...)
+					rp[2] = tmember{name: tms[2].name, data: []byte(variants[name])}
+					toCoq := isSmall && (!strings.HasPrefix(name, "long") && name != "bad-then-long" || bi == 1)
+					t := buildTar(rp)
+					e.emit(o, mutation{"sums:" + name, false, t}, toCoq)
+					e.emit(o, mutation{"sums:" + name + "+gz", true, gzipBytes(t)}, toCoq)
+				}
+			}
+			injects := []tmember{
+				{name: "evil.bin", data: []byte("x")}, {name: "meta.json", data: []byte{}}, {name: "meta.json", data: []byte("{}")},
+				{name: "meta.json", data: []byte("{\"Index\":99}")}, {name: "meta.json", data: []byte("null")},
+				{name: "state.bin", data: []byte{}}, {name: "state.bin", data: []byte("zz")},
+				{name: "SHA256SUMS", data: []byte{}}, {name: "SHA256SUMS", data: []byte("\n")}, {name: "SHA256SUMS", data: []byte("garbage line\n")},
+				{name: "SHA256SUMS", data: []byte(fmt.Sprintf("%x  state.bin\n", sum(b.state)))},
+				{name: "SHA256SUMS", data: []byte(fmt.Sprintf("%x  other.bin\n", sum(b.state)))},
+				{name: "SHA256SUMS", data: []byte(fmt.Sprintf("%x  state.bin\n", sum([]byte("zz"))))},
+				// members that are not regular files: directory, symlink, hard link, fifo, char device, PAX global header
+				{name: "evil/", typ: tar.TypeDir}, {name: "evil.lnk", typ: tar.TypeSymlink, link: "state.bin"},
+				{name: "evil.hard", typ: tar.TypeLink, link: "state.bin"}, {name: "evil.fifo", typ: tar.TypeFifo},
+				{name: "evil.chr", typ: tar.TypeChar}, {name: "pax", typ: tar.TypeXGlobalHeader},
+				{name: "state.bin", typ: tar.TypeSymlink, link: "meta.json"}, {name: "meta.json", typ: tar.TypeDir},
+				{name: "SHA256SUMS", typ: tar.TypeFifo},
+			}
+			for _, inj := range injects {
+				for j := 0; j <= len(tms); j++ {
+					l := append(append(append([]tmember{}, tms[:j]...), inj), tms[j:]...)
+					both(fmt.Sprintf("inject:%s(%d)t%d@%d", inj.name, len(inj.data), inj.typ, j), buildTar(l))
+				}
+			}
+			// PAX extended header ('x') records and GNU long names apply to the NEXT member: archive/tar
+			// folds them into that member's header, so the view and consul see the same names
+			for j := range tms {
+				both(fmt.Sprintf("pax-x-path:%s", tms[j].name), buildTarPaxPath(tms, j))
+				both(fmt.Sprintf("gnu-longname:%s", tms[j].name), buildTarLongName(tms, j))
 			}
 		}
-		perms := [][]int{{0, 2, 1}, {1, 0, 2}, {1, 2, 0}, {2, 0, 1}, {2, 1, 0}}
-		if len(ms) == 3 {
-			for _, p := range perms {
-				both(fmt.Sprintf("reorder:%v", p), []tmember{ms[p[0]], ms[p[1]], ms[p[2]]})
-			}
-		}
-		injects := []tmember{
-			{name: "evil.bin", data: []byte("x")}, {name: "meta.json", data: []byte{}}, {name: "meta.json", data: []byte("{}")},
-			{name: "meta.json", data: []byte("{\"Index\":99}")}, {name: "state.bin", data: []byte{}}, {name: "state.bin", data: []byte("zz")},
-			{name: "SHA256SUMS", data: []byte{}}, {name: "SHA256SUMS", data: []byte("\n")}, {name: "SHA256SUMS", data: []byte("garbage line\n")},
-			{name: "SHA256SUMS", data: []byte(fmt.Sprintf("%x  state.bin\n", sum(b.state)))},
-			{name: "SHA256SUMS", data: []byte(fmt.Sprintf("%x  other.bin\n", sum(b.state)))},
-			{name: "SHA256SUMS", data: []byte(fmt.Sprintf("%x  state.bin\n", sum([]byte("zz"))))},
-			// members that are not regular files: directory, symlink, hard link, fifo, char device, PAX global header
-			{name: "evil/", typ: tar.TypeDir}, {name: "evil.lnk", typ: tar.TypeSymlink, link: "state.bin"},
-			{name: "evil.hard", typ: tar.TypeLink, link: "state.bin"}, {name: "evil.fifo", typ: tar.TypeFifo},
-			{name: "evil.chr", typ: tar.TypeChar}, {name: "pax", typ: tar.TypeXGlobalHeader},
-			{name: "state.bin", typ: tar.TypeSymlink, link: "meta.json"}, {name: "meta.json", typ: tar.TypeDir},
-		}
-		for _, inj := range injects {
-			for j := 0; j <= len(ms); j++ {
-				l := append(append(append([]tmember{}, ms[:j]...), inj), ms[j:]...)
-				both(fmt.Sprintf("inject:%s(%d)t%d@%d", inj.name, len(inj.data), inj.typ, j), l)
-			}
-		}
-		// forged archive: consistent sums over altered payload must be accepted only as itself
-		// (not a corruption of the original: the oracle compares with the original, so skip).
 	}
+
+	// ---- metadata fuzzing, hypothesis tests, restore path ----
+	hyp := fuzzPhase(e, rng, thorough, orders)
+	rst := restorePhase(restoreSet, bases, thorough)
+	leaked := 0
+	if ents, err := os.ReadDir(tmpd); err == nil {
+		leaked = len(ents)
+	}
+	e.line(map[string]interface{}{"type": "summary", "orders": orders, "hypotheses": hyp, "restore": rst,
+		"temp_files_left_by_snapshot_Read": leaked})
+}
+
+// buildTarPaxPath renames member j to a 150-character name in PAX format: a PAX extended header
+// ('x' record "path") precedes the member and overrides the name in its own header.
+func buildTarPaxPath(ms []tmember, j int) []byte {
+	var b bytes.Buffer
+	tw := tar.NewWriter(&b)
+	for i, m := range ms {
+		h := &tar.Header{Name: m.name, Mode: 0600, Size: int64(len(m.data)), Format: tar.FormatPAX}
+		if i == j {
+			h.Name = strings.Repeat("p", 150)
+		}
+		if err := tw.WriteHeader(h); err != nil {
+			panic(err)
+		}
+		tw.Write(m.data)
+	}
+	tw.Close()
+	return b.Bytes()
+}
+
+// buildTarLongName renames member j to a 150-character name (GNU long-name record).
+func buildTarLongName(ms []tmember, j int) []byte {
+	var b bytes.Buffer
+	tw := tar.NewWriter(&b)
+	for i, m := range ms {
+		h := &tar.Header{Name: m.name, Mode: 0600, Size: int64(len(m.data)), Format: tar.FormatGNU}
+		if i == j {
+			h.Name = strings.Repeat("n", 150)
+		}
+		if err := tw.WriteHeader(h); err != nil {
+			panic(err)
+		}
+		tw.Write(m.data)
+	}
+	tw.Close()
+	return b.Bytes()
 }
 
 func doReplay(path string) {
@@ -598,15 +993,22 @@ func doReplay(path string) {
 		panic(err)
 	}
 	var r struct {
-		Archive string `json:"archive"`
-		Gz      bool   `json:"gz"`
+		Archive string          `json:"archive"`
+		Gz      bool            `json:"gz"`
+		Fuzz    json.RawMessage `json:"replay"`
 	}
 	if err := json.Unmarshal(raw, &r); err != nil {
 		panic(err)
 	}
+	if len(r.Fuzz) > 0 && string(r.Fuzz) != "null" {
+		replayFuzz(r.Fuzz)
+		return
+	}
 	data, _ := hex.DecodeString(r.Archive)
-	mids := &metaIDs{ids: map[string]int{canonMeta(&raft.SnapshotMeta{}): 0}}
-	exp, incons := runImpl(data, r.Gz, mids)
-	j, _ := json.Marshal(map[string]interface{}{"expect": exp, "inconsistency": incons})
+	mids := newMetaIDs()
+	var c Case
+	vi := view(data, r.Gz, &c, map[string][]byte{}, mids)
+	res := runImpl(data, r.Gz, mids, vi)
+	j, _ := json.Marshal(map[string]interface{}{"expect": res.exp, "inconsistency": res.incons})
 	fmt.Println(string(j))
 }
